@@ -104,10 +104,14 @@ fn main() {
         let mut ids = vec![];
         for _ in 0..n {
             let e = world.spawn();
-            let mask = rng.below(8);
+            // every second world spreads its entities over up to 64 component sets (many archetypes per query)
+            let mask = if wi % 2 == 1 { rng.below(64) } else { rng.below(8) };
             if mask & 1 != 0 { world.insert(e, K0::mk(fresh_serial(), 0)); }
             if mask & 2 != 0 { world.insert(e, K1::mk(fresh_serial(), 0)); }
             if mask & 4 != 0 { world.insert(e, K3::mk(fresh_serial(), 0)); }
+            if mask & 8 != 0 { world.insert(e, K2::mk(fresh_serial(), 0)); }
+            if mask & 16 != 0 { world.insert(e, K4::mk(fresh_serial(), 0)); }
+            if mask & 32 != 0 { world.insert(e, K5::mk(fresh_serial(), 0)); }
             ids.push(e);
         }
         // some churn so that archetypes are emptied/refilled and rows swapped
